@@ -730,8 +730,12 @@ func init() {
 				g.Emit("P " + hx(a) + " " + hx(b))
 			}
 			// (b) Resolve: every element sequence of length <= maxLen for every root spelling
-			for _, r := range c17Roots {
-				for L := 0; L <= maxLen && L <= 2; L++ {
+			for ri, r := range c17Roots {
+				ml := maxLen
+				if ri >= 18 && ml > 5 { // odd-named and above-tree roots: length 5 in both tiers
+					ml = 5
+				}
+				for L := 0; L <= ml && L <= 2; L++ {
 					g.Count("resolve exhaustive lines")
 					g.Emit(rcase("R", r, "", false, L))
 				}
@@ -741,7 +745,7 @@ func init() {
 						g.Count("resolve exhaustive lines")
 						g.Emit(rcase("R", r, strings.Join(cur, "/"), true, 2))
 					}
-					if len(cur) == maxLen-2 {
+					if len(cur) == ml-2 {
 						return
 					}
 					for _, a := range c17Alphabet {
